@@ -15,7 +15,7 @@ import (
 
 // C17 — probing a request for a body. One stream:
 //
-//	H <kind> <data> <term> <together> <sched> <cerr> <cl> <hdr> <ops> => <one field per op> <closes>
+//	H <kind> <data> <term> <together> <sched> <cerr> <cl> <hdr> <ops> => <one field per op> <closes> <late>
 //
 //	kind      nil | nobody | src        request.Body: nil interface, http.NoBody, scripted stream
 //	data      hex                       bytes of the scripted stream
@@ -30,7 +30,8 @@ import (
 //	                                    c = req.Body.Close(); d<k> = Read(k bytes) until an error
 //
 // Output per op: h0|h1 ; r:<hex>:<err> ; d:<hex>:<err> ; c:<err>:<direct 0|1> ; x (req.Body is the
-// nil interface: nothing to call). <closes> = number of Close calls the scripted stream saw.
+// nil interface: nothing to call). <closes> = number of Close calls the scripted stream saw; <late> =
+// number of Read calls the scripted stream received after it had been closed.
 func init() {
 	proto.Register(&proto.Prop{ID: "C17", Gen: c17Gen, Exec: c17Exec, Corpus: [][]string{
 		// F17a witness (fixed): HasBody on a nil Body stored a typed-nil *peekingReader whose Close panicked
@@ -43,6 +44,17 @@ func init() {
 		{"H", "src", proto.B("x"), "eof", "0", c17Zeros(99), "0", "-1", "~", "h,d1"},
 		// close, probe again, read, close again
 		{"H", "src", proto.B("abc"), "eof", "0", ".", "4", "0", "~", "h,c,h,r2,r0,c,c"},
+		// a body that probes empty is the library's all the same: closed once, reads after close do not
+		// reach the underlying stream (witnesses of the seeded change "wrap only when there is content")
+		{"H", "src", "-", "eof", "0", ".", "0", "0", "~", "h,c,c"},
+		{"H", "src", "-", "eof", "0", ".", "0", "0", "~", "h,c,r8"},
+		{"H", "src", "-", "e3", "0", "0,0", "2", "-1", "~", "h,h,c,h,c,r1,d2"},
+		{"H", "nobody", "-", "eof", "0", ".", "0", "0", "~", "h,c,c,r3"},
+		{"H", "src", proto.B("xy"), "eof", "1", "1", "0", "0", "~", "d5,h,c,c,r2"},
+		// the caller closes its own stream before asking: its business; afterwards the library's body
+		{"H", "src", "-", "eof", "0", ".", "0", "0", "~", "c,h,c,r4,c"},
+		// declared length: HasBody leaves the body alone, every close is the caller's own
+		{"H", "src", "-", "eof", "0", ".", "0", "0", proto.B("0"), "h,c,c,r4"},
 	}})
 }
 
@@ -63,11 +75,13 @@ type c17Src struct {
 	together bool
 	sched    []int
 	closes   int
+	late     int // Read calls received after Close
 	cerr     error
 }
 
 func (s *c17Src) Read(p []byte) (int, error) {
 	if s.closes > 0 {
+		s.late++
 		return 0, errC17Closed
 	}
 	if len(s.data) == 0 {
@@ -201,7 +215,7 @@ func c17Exec(in []string) []string {
 			}
 		}
 	}
-	return append(out, proto.N(src.closes))
+	return append(out, proto.N(src.closes), proto.N(src.late))
 }
 
 // ---- generator
@@ -342,7 +356,94 @@ func c17Len(r *proto.Rng, dataLen int, malformed bool) (string, string) {
 	}
 }
 
+func c17K(r *proto.Rng) string { return proto.N(c17Ks[r.Intn(len(c17Ks))]) }
+
+func c17K1(r *proto.Rng) string {
+	k := c17Ks[r.Intn(len(c17Ks))]
+	if k == 0 {
+		k = 1 + r.Intn(5)
+	}
+	return proto.N(k)
+}
+
+// c17EmptyProbe: bodies on which the probe finds nothing (no data with an EOF or error terminal,
+// http.NoBody, nil, or a body read to its end before asking), probed and then closed more than once,
+// read after close, probed again after close.
+func c17EmptyProbe(r *proto.Rng, emit func(in ...string)) {
+	kind := "src"
+	switch r.Intn(20) {
+	case 0, 1, 2:
+		kind = "nobody"
+	case 3, 4:
+		kind = "nil"
+	}
+	term := "eof"
+	if r.Chance(2, 5) {
+		term = "e" + proto.N(1+r.Intn(9))
+	}
+	cerr := "0"
+	if r.Chance(1, 6) {
+		cerr = proto.N(1 + r.Intn(9))
+	}
+	data := ""
+	var ops []string
+	switch x := r.Intn(20); {
+	case x < 12:
+	case x < 17:
+		// read to its end before asking
+		n := 1 + r.Intn(30)
+		b := make([]byte, n)
+		for i := range b {
+			b[i] = byte(65 + i)
+		}
+		data = string(b)
+		ops = append(ops, "d"+c17K1(r))
+	default:
+		// for contrast: the probe finds content
+		data = "body"
+	}
+	cl, hdr := r.Pick("0", "-1"), "~"
+	if r.Chance(1, 8) {
+		// for contrast: a declared length, HasBody leaves the caller's stream in place
+		cl, hdr = "0", proto.B("0")
+	}
+	for i := r.Intn(3); i > 0; i-- {
+		ops = append(ops, r.Pick("h", "r"+c17K(r), "r0", "d"+c17K1(r)))
+	}
+	ops = append(ops, "h")
+	switch r.Intn(10) {
+	case 0:
+		ops = append(ops, "c", "c")
+	case 1:
+		ops = append(ops, "c", "r"+c17K(r))
+	case 2:
+		ops = append(ops, "c", "h", "c")
+	case 3:
+		ops = append(ops, "c", "c", "r"+c17K1(r))
+	case 4:
+		ops = append(ops, "c", "d"+c17K1(r))
+	case 5:
+		ops = append(ops, "c", "h", "r"+c17K1(r), "c")
+	case 6:
+		ops = append(ops, "r"+c17K(r), "c", "c")
+	case 7:
+		ops = append(ops, "h", "c", "c", "h")
+	case 8:
+		ops = append(ops, "c", "r0", "r"+c17K1(r))
+	default:
+		ops = append(ops, "c", "c", "c", "h", "r"+c17K1(r), "c")
+	}
+	for i := r.Intn(4); i > 0; i-- {
+		ops = append(ops, r.Pick("h", "c", "r"+c17K(r), "d"+c17K1(r)))
+	}
+	emit("H", kind, proto.B(data), term, proto.Bool(r.Chance(1, 2)), c17Sched(r, false), cerr, cl, hdr, strings.Join(ops, ","))
+}
+
 func c17Case(r *proto.Rng, tier string, emit func(in ...string)) {
+	if r.Chance(1, 5) {
+		c17EmptyProbe(r, emit)
+		return
+	}
 	malformed := r.Chance(1, 25)
 	kind := "src"
 	switch r.Intn(20) {
